@@ -801,6 +801,16 @@ func vfGenTimerSpecs(tier string, seed uint64, race bool) []vfSpec {
 			for s := 0; s < nA; s++ {
 				sp.Streams = append(sp.Streams, vfStreamCfg{SID: uint16(s + 1), Dir: s % 2, NMsgs: 3 + r.Intn(20), SizeMode: []string{"small", "mixed", "big"}[r.Intn(3)], Reader: "fast", GapUs: int64(r.Pick(0, 1000, 100000))}) //nolint:gosec
 			}
+			if vfHash(sp.Seed, 0x19a)%3 == 0 {
+				// window-limited first flight: what is left of the peer's window when the blackout begins is
+				// smaller than a chunk but not zero; the retransmissions have to go on all the same
+				sp.A.RecvBuf = uint32([]int{2500, 3500, 4096}[vfHash(sp.Seed, 0x19b)%3]) //nolint:gosec
+				sp.B.RecvBuf = sp.A.RecvBuf
+				for k := range sp.Streams {
+					sp.Streams[k].NMsgs += 20
+					sp.Streams[k].GapUs = 0
+				}
+			}
 			sp.A.MaxMsg = vfEffMaxMsg(&sp.A, &sp.B, nA, sp.A.IL)
 			sp.B.MaxMsg = vfEffMaxMsg(&sp.B, &sp.A, nA, sp.A.IL)
 		}
